@@ -2,6 +2,7 @@ package hsim
 
 import (
 	"sort"
+	"time"
 
 	"hagallsim/simrt"
 )
@@ -86,6 +87,12 @@ func init() {
 				p.MinSteps, p.MaxSteps = 6, 28
 				sc := GenHistory(seed, p)
 				sc.Prop = "C03"
+				if seed%5 != 0 {
+					// slow tasks: a departure held up between leaving the session and tearing it
+					// down, while a creation or a join by id runs to completion
+					sc.World.StallProb = 0.01
+					sc.World.StallMax = 5 * time.Millisecond
+				}
 				return sc
 			}
 			sc := GenHistory(seed, p)
